@@ -214,6 +214,12 @@ E("filter/time-varying-expr", 3,
   same(3), vals="small")
 E("filter/time-varying-gain", 2,
   lambda s: ZFilter([1, 1], {0: Stream(s[1]), 1: .5})(s[0]), same(2))
+E("filter/all-zero-expr", 1, lambda s: (0 * z ** -1)(s[0]), same(1))
+E("filter/all-zero-difference", 1, lambda s: (z ** -2 - z ** -2)(s[0]),
+  same(1))
+E("filter/all-zero-ZFilter(0)", 1, lambda s: ZFilter(0)(s[0]), same(1))
+E("filter/all-zero-over-denominator", 1,
+  lambda s: ZFilter([0, 0], [1, -.5])(s[0]), same(1))
 E("filter/cascade", 1,
   lambda s: CascadeFilter(1 - z ** -1, 1 / (1 - .5 * z ** -1), z ** -2)(s[0]),
   same(1))
@@ -368,6 +374,27 @@ for _old, _new, _order in [(1, 1, 3), (1, 2, 3), (3, 2, 1), (5, 3, 2),
 E("resample/stream-step", 2,
   lambda s: resample(s[0], old=Stream(s[1]), new=2, order=3),
   lambda m1: (int(m1 * 3) + 4, m1), exact=False, vals="float")
+
+
+# a stream-valued step of known (constant) value: the same exact neighbour
+# bound as for a number, and at most one step value per output
+def _res_need_stream(old, new, order):
+  inner = _res_need(old, new, order)
+  return lambda m1: (inner(m1)[0], m1)
+
+
+for _old, _new, _order in [(1, 1, 1), (1, 1, 3), (2, 1, 1), (3, 2, 2),
+                           (1, 2, 3), (5, 2, 0), (3, 1, 4)]:
+  E("resample/stream-old/%d-%d-o%d" % (_old, _new, _order), 2,
+    lambda s, a=_old, b=_new, c=_order: resample(
+      s[0], old=Stream(s[1]).map(lambda v, a=a: Fraction(a)), new=Fraction(b),
+      order=c),
+    _res_need_stream(_old, _new, _order), exact=False, vals="float")
+  E("resample/stream-new/%d-%d-o%d" % (_old, _new, _order), 2,
+    lambda s, a=_old, b=_new, c=_order: resample(
+      s[0], old=Fraction(a), new=Stream(s[1]).map(lambda v, b=b: Fraction(b)),
+      order=c),
+    _res_need_stream(_old, _new, _order), exact=False, vals="float")
 
 
 # ---- J. overlap-add / STFT ---------------------------------------------------------------
